@@ -667,8 +667,10 @@ class Polygon(Shape2D):
         # and must be squeezed out.
         midpoints_dot_qs = np.inner(
             midpoints[:, np.newaxis, :], q_nonzero_broadcast
-        ).squeeze()
-        edges_dot_qs = np.inner(edges[:, np.newaxis, :], q_nonzero_broadcast).squeeze()
+        ).squeeze(axis=(1, 2))
+        edges_dot_qs = np.inner(edges[:, np.newaxis, :], q_nonzero_broadcast).squeeze(
+            axis=(1, 2)
+        )
         f_ns = (
             np.dot(edges_cross_qs, self.normal)
             # Note that np.sinc(x) gives sin(pi*x)/(pi*x)
